@@ -293,11 +293,17 @@ fn fragmented(quick: bool) -> Vec<Scen> {
         vec![MAXP - 1, MAXP, MAXP + 1, 2 * MAXP - 1, 2 * MAXP, 2 * MAXP + 1, 2 * MAXP + 9]
     };
     for (vi, size) in sizes.iter().enumerate() {
-        for variant in 0..2 {
+        for variant in 0..3 {
             if quick && variant == 1 && vi == 1 {
                 continue;
             }
-            let (conv, exp, label) = if variant == 0 {
+            let (conv, exp, label) = if variant == 2 {
+                // the large command is the last thing the client sends: nothing behind it can
+                // make up for bytes the reader believes are still missing
+                let text = ascii_pattern(size - 1, 4);
+                let (c1, cb1) = small_cmd(COM_QUERY, &text);
+                (Conv::new(vec![c1]), vec![auth_cb(), cb1], format!("query payload of {} bytes, then end of stream", size))
+            } else if variant == 0 {
                 // one query whose text fills the payload
                 let text = ascii_pattern(size - 1, 3);
                 let (c1, cb1) = small_cmd(COM_QUERY, &text);
@@ -344,6 +350,12 @@ fn fragmented(quick: bool) -> Vec<Scen> {
                     if p > 0 && (p as usize) < sc.stream.len() {
                         cands.push(p as usize);
                     }
+                }
+            }
+            if variant == 2 {
+                let end = sc.stream.len();
+                for d in 1..=6 {
+                    cands.push(end - d);
                 }
             }
             cands.sort();
